@@ -154,11 +154,24 @@ func (x *XObject) Count() int {
 
 // Get retrieves the named property
 func (x *XObject) Get(key string) (XValue, bool) {
+	props := x.properties()
+
+	// an exact match always wins
+	if v, ok := props[key]; ok {
+		return v, true
+	}
+
+	// otherwise lookup is case-insensitive and if several names only differ by case, the first in sort order
+	// wins so that the result doesn't depend on map iteration order
 	key = strings.ToLower(key)
-	for p, v := range x.properties() {
-		if strings.ToLower(p) == key {
-			return v, true
+	match, found := "", false
+	for p := range props {
+		if strings.ToLower(p) == key && (!found || p < match) {
+			match, found = p, true
 		}
+	}
+	if found {
+		return props[match], true
 	}
 
 	return nil, false
